@@ -231,6 +231,35 @@ CHECKS = {
                     "client's own probe says the combination works."),
         level_note="Trusts miekg/dns Pack/Unpack as the wire.",
     ),
+    "C12": dict(
+        inpkg="internal/streams/dns", src=["inpkg_dnssim", "inpkg_c12"],
+        level="exploration",
+        ulimit_v_kb=6 * 1024 * 1024,
+        death_is_violation=True,
+        technique="grammar-based property testing (rapid) of the DNS server's message handler and the client's answer decoder with no-crash / bounded-work / session-undisturbed oracles; native fuzzing in thorough",
+        rule=("server cases = sequences of 1-12 one-question messages from a grammar (ordinary look-ups mail/www/ldap/_dmarc, bare "
+              "domain and root, every command letter in both cases with 0-5 following characters, command+cache+user id "
+              "(valid, live session's, >=1296-looking, non-base36)+alphabet soup, multi-label soup, and syntactically valid "
+              "requests with hostile field values (fragment sizes 0,1,2^31,2^32-1, closed flag, every codec) optionally "
+              "truncated or corrupted; tunnel domain, case variants, sibling and parent domains, root; query types biased to the "
+              "tunnel's plus arbitrary 0-65535; classes), all passed through Pack/Unpack first and sent from a foreign address "
+              "while a real session from another address is established. Oracle: the real message handler does not panic, "
+              "returns within 1 s and < 16 MiB allocated, leaves the session's sequence numbers untouched, and the session "
+              "afterwards completes an exact 500-byte transfer both ways. A further test sets hostile fragment sizes on the "
+              "session's own options and requires a following 3000-byte server write to finish with bounded allocation. Client "
+              "cases = answers with 0-4 records of mixed types (records shorter than their order tag, foreign owner names, "
+              "error rcodes) x every codec through DecodeDnsResponseWithParams and SendAndReceive: error or value, never a "
+              "panic. Every case is non-trivial (hostile input); distinct = distinct message description"),
+        assumptions=["the binary runs under ulimit -v 6 GiB; a process death is reported with the journalled last input as replay"],
+        quick=dict(run="^Test", checks=1500, timeout=600),
+        thorough=dict(run="^Test", checks=30000, timeout=3000, shards=8),
+        fuzz=[dict(name="FuzzServerMessage", time="120s"), dict(name="FuzzClientAnswer", time="120s")],
+        design_ref="DESIGN.md 2/C12",
+        level_text=("Grammar-generated hostile queries against the real server handler with an established session as witness, and "
+                    "generated malformed answers against the real client decoder. A green run means nothing crashed, work per "
+                    "message stayed bounded and the witness session kept transferring exactly."),
+        level_note="The handler is called directly (in-package) the way the miekg/dns mux would call it.",
+    ),
     "C14": dict(
         pkg="c14",
         level="fault_enumeration",
